@@ -816,6 +816,9 @@ func goEnforcedFor(p quic.VerifAdvEnfCfg, adv [kNum]int64, specDriven bool) (e [
 		e[kDgram] = 16383
 	}
 	e[kIdleMs] = max(e[kIdleMs], adv[kIdleMs])
+	if adv[kIdleMs] == 0 {
+		e[kIdleMs] = (1<<63 - 1) / 4 / 1000000 // none advertised: no idle timeout of its own
+	}
 	return e
 }
 
@@ -1468,7 +1471,9 @@ func runAdvEnf(w *bufio.Writer, seed uint64, n int, args []string) {
 			case peerMs > 0:
 				expectNs = peerMs * 1e6
 			}
-			if expectNs < 0 || enf.IdleTimeout < expectNs {
+			// "no idle timeout" as the connection holds it: u_connection.go noIdleTimeout = MaxInt64/4 ns
+			const noIdleNs = int64(1<<63-1) / 4
+			if expectNs < 0 && enf.IdleTimeout < noIdleNs || expectNs >= 0 && enf.IdleTimeout < expectNs {
 				need := [kNum]int64{}
 				need[kIdleMs] = adv[kIdleMs]
 				lb := label(client, kIdleMs, cfg, need, genf)
